@@ -813,3 +813,12 @@ def stroh_eigen(E, L):
         # under the closure relation asserted by solve():  M = I  =>  jump_i = b_i   (certificate: jump_i - b_i = sum_j (M_ij - delta_ij) b_j)
         resid = sum(((M[i][j] - (1 if i == j else 0)) * b[j] for j in range(3)), CSym(0, 0))
         _cprove(E, 'stroh.burgers_jump.minus_b_is_combination_of_closure_defect[%d]' % i, jump - b[i], resid)
+
+# ----------------------------------------------------------------------------
+# callee contracts this property's proofs ASSUME are part of this check (modular verification carries the property only if the assumed contract is itself
+# discharged on the same tree): the groups of the property that establishes them run here as well, reported under this property when they fail.
+# the dislocation solvers are verified against the contract of ElasticConstants.transform / Cijkl (rotated stiffness); ElasticConstants.py is one of this property's files
+from . import c11 as _c11
+for _g in _c11.GROUPS:
+    if _g.name in ('transform', 'representations.getters'):
+        GROUPS.append(_g)
